@@ -182,6 +182,8 @@ type End struct {
 	// ParkEveryRead makes every Read a park point (default: only when nothing is readable).
 	ParkEveryRead bool
 	TaskName      string
+	// WriteHook observes every Write call on this end before it takes effect.
+	WriteHook func(p []byte)
 }
 
 // NewPipe creates an unconnected pipe (conn-level checks hand End(1) to the server directly).
@@ -285,6 +287,9 @@ func (e *End) Write(p []byte) (int, error) {
 	n := e.P.N
 	d := e.out()
 	total := 0
+	if e.WriteHook != nil {
+		e.WriteHook(p)
+	}
 	for {
 		n.mu.Lock()
 		if e.closed {
